@@ -110,6 +110,9 @@ func main() {
 	if v := os.Getenv("VERIF_DIR"); v != "" {
 		verifDir = v
 	}
+	if v := os.Getenv("VERIF_REPO"); v != "" {
+		repoDir = v
+	}
 	if len(os.Args) < 2 {
 		fmt.Fprintln(os.Stderr, "usage: vcheck check|worker|replay|list ...")
 		os.Exit(2)
